@@ -25,6 +25,7 @@ func runC02(c *Ctx) {
 	cdxFlow(c)
 	cdxLoops(c, "C02")
 	cdxTreeAssembly(c, "C02")
+	placedAttached(c)
 }
 
 func cdxTables(c *Ctx) {
